@@ -384,3 +384,70 @@ theorem take_append_take {α} (a b : List α) (c : Nat) : (a ++ b.take c).take c
   omega
 
 end Log4rs.Roller
+
+namespace Log4rs.Roller
+
+/-- one fault-free roll on an arbitrary window, slot by slot (see `C07_rotate_general`) -/
+theorem rollU32_general (r : RollerCfg) (file : Path) (d : Disk) (x : Bytes)
+    (hg : r.base + r.count < U32_MOD) (hc : r.count ≠ 0)
+    (hinj : NamesInj r) (hfa : FileApart r file) (hx : d.get? file = some x) :
+    ∃ d', rollU32 r file (fun _ => false) d = (.ok d', d') ∧
+      slot r d' r.base = some (r.enc x) ∧
+      d'.get? file = none ∧
+      (∀ j, 1 ≤ j → j < r.count → slot r d' (r.base + j) =
+        match slot r d (r.base + j - 1) with
+        | some y => some y
+        | none => if j = r.count - 1 then slot r d (r.base + j) else none) ∧
+      (∀ i, i < r.base ∨ r.base + r.count ≤ i → slot r d' i = slot r d i) := by
+  obtain ⟨d', hroll, hq⟩ := fixedWindowRoll_ok r file d x hc hfa hx
+  refine ⟨d', ?_, ?_, ?_, ?_, ?_⟩
+  · rw [rollU32_guarded _ _ _ _ hg, hroll]
+  · simp [slot, hq]
+  · rw [hq]; simp [(hfa r.base).symm]
+  · intro j h1 h2
+    have hne : r.nameOf (r.base + j) ≠ r.nameOf r.base := fun e => by have := hinj _ _ e; omega
+    show d'.get? (r.nameOf (r.base + j)) = _
+    rw [hq, if_neg hne, if_neg (hfa _)]
+    have := (slot_applyShifts hinj (r.count - 1) d).2 j h1 (by omega)
+    simp only [slot] at this ⊢
+    rw [this]
+    cases d.get? (r.nameOf (r.base + j - 1)) with
+    | some y => rfl
+    | none =>
+      by_cases hj : j = r.count - 1
+      · subst hj; simp
+      · simp [hj]
+  · intro i hi
+    have hne : r.nameOf i ≠ r.nameOf r.base := fun e => by have := hinj _ _ e; omega
+    show d'.get? (r.nameOf i) = _
+    rw [hq, if_neg hne, if_neg (hfa _)]
+    exact slot_applyShifts_other hinj _ d i (by omega)
+
+/-- one roll on a window described as a list, newest first (see `C07_roll_window`) -/
+theorem rollU32_window (r : RollerCfg) (file : Path) (d : Disk) (x : Bytes) (ws : List Bytes)
+    (hg : r.base + r.count < U32_MOD) (hc : r.count ≠ 0)
+    (hinj : NamesInj r) (hfa : FileApart r file) (hw : WindowIs r d ws) :
+    WindowIs r (rollU32 r file (fun _ => false) (d.set file x)).2 ((r.enc x :: ws).take r.count) ∧
+      (rollU32 r file (fun _ => false) (d.set file x)).2.get? file = none := by
+  have hx : (d.set file x).get? file = some x := Disk.get?_set_same _ _ _
+  have hsl : ∀ i, slot r (d.set file x) i = slot r d i := fun i =>
+    Disk.get?_set_ne _ _ (hfa i)
+  obtain ⟨d', h0, h1, h2, h3, _⟩ := rollU32_general r file _ x hg hc hinj hfa hx
+  rw [h0]
+  refine ⟨fun j hj => ?_, h2⟩
+  rw [List.getElem?_take, if_pos hj]
+  cases j with
+  | zero => simpa using h1
+  | succ j =>
+    rw [h3 (j + 1) (by omega) hj, hsl, hsl]
+    rw [show r.base + (j + 1) - 1 = r.base + j from by omega, hw j (by omega), List.getElem?_cons_succ]
+    cases hj' : ws[j]? with
+    | some y => rfl
+    | none =>
+      have hlen : ws.length ≤ j := by simpa using hj'
+      have : ws[j + 1]? = none := by simp; omega
+      by_cases hlast : j + 1 = r.count - 1
+      · simp only [hlast, if_true]; rw [← hlast, hw (j + 1) hj, this]
+      · simp [hlast]
+
+end Log4rs.Roller
